@@ -64,9 +64,12 @@ def pyEval (ops : Ops) (env : Env) : Expr → Except Exc (Val × Log)
   | .display i es => do
       let (vs, l) ← pyEvalList ops env es
       pure (.list vs, l ++ [(i, .list vs)])
-  | .comp i _ _ => do
+  | .comp i _ first _ => do
+      -- the iterable of the first `for` is evaluated in the enclosing scope, before the comprehension's own scope exists;
+      -- the comprehension itself is one native evaluation
+      let (_, l0) ← pyEval ops env first
       let r ← ops.comp i env.names
-      pure (r, [(i, r)])
+      pure (r, l0 ++ [(i, r)])
 
   -- second version ------------------------------------------------------------------------------------
   | .starred _ _ => .error "SyntaxError"                  -- `*e` is not an expression on its own
